@@ -1175,6 +1175,13 @@ def rule_visit_nullable(check, rule):
                     t = par
             if isinstance(loop, ast.comprehension) and any(tgt in norm(i_) for i_ in loop.ifs):
                 guarded = True
+            if isinstance(loop, ast.For) and not guarded:
+                # the guard-clause form: `if <test of the node>: continue` ahead of the visit, at the level of the loop body
+                for v in visits:
+                    idx = [i for i, s_ in enumerate(loop.body) if any(c is v for c in ast.walk(s_))]
+                    if idx and any(isinstance(s_, ast.If) and tgt in norm(s_.test) and isinstance(s_.body[-1], (ast.Continue, ast.Break, ast.Return, ast.Raise))
+                                   for s_ in loop.body[:idx[0]]):
+                        guarded = True
             key = '%s|visit-nullable|%s' % (m.key, ','.join(fields))
             if guarded:
                 check.holds(rule, site_of(m, loop.iter), 'nodes drawn from %s are tested before being visited' % '/'.join(fields), key=key)
@@ -1255,3 +1262,183 @@ def rule_builtins_access(check, rule):
                                 witness='a script-level def f(*a, **k): return print(*a, **k); sigtools.signature(f)')
     if not n:
         check.holds(rule, 'sigtools/_autoforwards.py:0 _autoforwards', 'nothing subscripts __builtins__', key='builtins-subscript|none', nontrivial=False)
+
+
+# ---------------------------------------------------------------------------
+# C05.R4b -- the pre-scan helper of the loop handlers is exhaustive over the binding constructs
+
+def _prescan_helper(fi):
+    """the module-level helper a loop handler draws the names to invalidate from (`for name in helper(node): ...`)"""
+    nodep = fi.params()[0][1] if len(fi.params()[0]) > 1 else None
+    for stmt in fi.node.body:
+        if isinstance(stmt, ast.For) and isinstance(stmt.iter, ast.Call) and isinstance(stmt.iter.func, ast.Name):
+            helper = fi.module.funcs.get(stmt.iter.func.id)
+            if helper is not None and stmt.iter.args and norm(stmt.iter.args[0]) == nodep and \
+                    any(isinstance(n, ast.Call) and norm(n.func) in ('ast.walk', 'walk') for n in ast.walk(helper.node)):
+                return helper
+    return None
+
+
+def _ast_classes(expr):
+    """class names of an isinstance() second argument: ast.X, getattr(ast, 'X', ()), tuples of those; None when not understood"""
+    if isinstance(expr, ast.Attribute) and isinstance(expr.value, ast.Name) and expr.value.id == 'ast':
+        return [expr.attr]
+    if isinstance(expr, ast.Name) and expr.id[:1].isupper():
+        return [expr.id]
+    if isinstance(expr, ast.Call) and isinstance(expr.func, ast.Name) and expr.func.id == 'getattr' and len(expr.args) >= 2 \
+            and isinstance(expr.args[0], ast.Name) and expr.args[0].id == 'ast' and isinstance(expr.args[1], ast.Constant) \
+            and isinstance(expr.args[1].value, str):
+        return [expr.args[1].value]
+    if isinstance(expr, ast.Tuple):
+        out = []
+        for e in expr.elts:
+            c = _ast_classes(e)
+            if c is None:
+                return None
+            out += c
+        return out
+    return None
+
+
+def rule_prescan_exhaustive(check, rule):
+    """C05.R4b: a loop handler that invalidates "every name rebound anywhere in the loop" through a helper walking the subtree is
+    as good as that helper's list of binding constructs.  Against the grammar of the running interpreter (the identifier fields
+    classified as binding for C05.R1, plus Name in Store/Del context) every binding construct must have a branch in the helper
+    that tests for its class and hands out the bound name: a construct it misses is a rebinding on the back-edge that goes
+    unnoticed (`for ...: inner(*args, **kwargs); import os as kwargs`)."""
+    vf = VisitorFacts(check.repo)
+    g = grammar()
+    helpers = {}
+    for cname in LOOPS:
+        h = vf.handler(cname)
+        if h is None:
+            continue
+        hp = _prescan_helper(h)
+        if hp is not None:
+            helpers[hp.key] = hp
+    if not helpers:
+        check.holds(rule, '-', 'no loop handler pre-scans through a helper (the direct forms are judged by C05.R4)', key='prescan|none', nontrivial=False)
+        return
+    for hp in helpers.values():
+        check.analysed(hp)
+        loop = None
+        for s in hp.node.body:
+            if isinstance(s, ast.For) and isinstance(s.iter, ast.Call) and norm(s.iter.func) in ('ast.walk', 'walk') and isinstance(s.target, ast.Name):
+                loop = s
+        st = site_of(hp, hp.node)
+        if loop is None:
+            check.inconclusive(rule, st, '%s: loop over ast.walk(...) not found at the top level' % hp.name, key='prescan|%s|loop' % hp.name)
+            continue
+        child = loop.target.id
+        # flatten the if/elif chain
+        branches = []       # (classes or None, body, test node)
+        unknown_tests = []
+        stmts = list(loop.body)
+        if len(stmts) != 1 or not isinstance(stmts[0], ast.If):
+            check.inconclusive(rule, site_of(hp, loop), '%s: the loop body is not one if/elif chain' % hp.name, key='prescan|%s|chain' % hp.name)
+            continue
+        cur = stmts[0]
+        while True:
+            t = cur.test
+            classes = None
+            if isinstance(t, ast.Call) and isinstance(t.func, ast.Name) and t.func.id == 'isinstance' and len(t.args) == 2 \
+                    and isinstance(t.args[0], ast.Name) and t.args[0].id == child:
+                classes = _ast_classes(t.args[1])
+            if classes is None:
+                unknown_tests.append(t)
+            branches.append((classes, cur.body, t))
+            if len(cur.orelse) == 1 and isinstance(cur.orelse[0], ast.If):
+                cur = cur.orelse[0]
+            else:
+                if cur.orelse:
+                    branches.append((None, cur.orelse, None))
+                break
+
+        def handed_out(body, field, guard_ok):
+            """does this branch body yield child.<field> (under no guard, or under a guard from guard_ok)?"""
+            res = []
+
+            def scan(stmts_, guards):
+                for s_ in stmts_:
+                    if isinstance(s_, ast.If):
+                        scan(s_.body, guards + [(s_.test, True)])
+                        scan(s_.orelse, guards + [(s_.test, False)])
+                    elif isinstance(s_, ast.Expr) and isinstance(s_.value, (ast.Yield, ast.YieldFrom)) and s_.value.value is not None:
+                        res.append((s_.value.value, guards))
+                    elif isinstance(s_, (ast.For, ast.While, ast.With, ast.Try)):
+                        res.append((None, guards))
+            scan(body, [])
+            for val, guards in res:
+                if val is None:
+                    continue
+                reads = [a for a in ast.walk(val) if isinstance(a, ast.Attribute) and isinstance(a.value, ast.Name) and a.value.id == child and a.attr == field]
+                if not reads:
+                    continue
+                if all(guard_ok(t_, pol) for t_, pol in guards):
+                    return val
+            return None
+
+        def truthy_guard(field):
+            def ok(t_, pol):
+                txt = norm(t_)
+                return pol and txt in ('%s.%s' % (child, field), '%s.%s is not None' % (child, field))
+            return ok
+
+        def store_guard(t_, pol):
+            txt = norm(t_)
+            if pol and txt in ('not isinstance(%s.ctx, ast.Load)' % child, 'isinstance(%s.ctx, (ast.Store, ast.Del))' % child,
+                               'isinstance(%s.ctx, (ast.Del, ast.Store))' % child):
+                return True
+            if (not pol) and txt == 'isinstance(%s.ctx, ast.Load)' % child:
+                return True
+            return False
+
+        need = [('Name', 'id', store_guard, 'an assignment, `del`, loop target, `with ... as`, walrus')]
+        for (cname, fn), (kind, why) in sorted(IDENT_FIELDS.items()):
+            if kind == 'binds' and cname in g:
+                need.append((cname, fn, truthy_guard(fn), why))
+        n = 0
+        for cname, fn, guard_ok, why in need:
+            n += 1
+            key = 'prescan|%s|%s.%s' % (hp.name, cname, fn)
+            mine = [(cl, body, t) for cl, body, t in branches if cl is not None and cname in cl]
+            # a branch listed earlier with a test that is not understood may take the node first
+            before_unknown = False
+            for cl, body, t in branches:
+                if cl is None and t is not None:
+                    before_unknown = True
+                if cl is not None and cname in cl:
+                    break
+            if not mine:
+                if unknown_tests:
+                    check.inconclusive(rule, st, '%s: no branch tests for ast.%s and a test of the chain is not understood (%s)'
+                                       % (hp.name, cname, norm(unknown_tests[0])[:60]), key=key)
+                else:
+                    check.violation(rule, st, '%s has no branch for ast.%s, whose field %r binds a name (%s): rebound on the back-edge of a loop, '
+                                    'the name is not invalidated' % (hp.name, cname, fn, why), key=key,
+                                    witness=_BIND_WITNESS.get((cname, fn), why))
+                continue
+            cl, body, t = mine[0]
+            if before_unknown:
+                check.inconclusive(rule, site_of(hp, t), '%s: a test ahead of the ast.%s branch is not understood' % (hp.name, cname), key=key)
+                continue
+            val = handed_out(body, fn, guard_ok)
+            if val is None:
+                check.violation(rule, site_of(hp, t), '%s: the branch for ast.%s does not hand out node.%s (or only under a condition other than '
+                                '"the field is set"%s)' % (hp.name, cname, fn, ' / "the context is not Load"' if cname == 'Name' else ''), key=key,
+                                witness=_BIND_WITNESS.get((cname, fn), why))
+                continue
+            if cname == 'alias':
+                # `import a.b` binds `a`; `import a.b as c` binds `c`: (asname or name).split('.')[0]
+                txt = norm(val)
+                other = 'asname' if fn == 'name' else 'name'
+                ok = '%s.asname or %s.name' % (child, child) in txt
+                idx = [x for x in ast.walk(val) if isinstance(x, ast.Subscript) and isinstance(x.slice, ast.Constant)]
+                if ok and ('split' not in txt or (idx and idx[0].slice.value == 0)):
+                    check.holds(rule, site_of(hp, t), '%s: alias binds (asname or name).split(".")[0]' % hp.name, key=key)
+                else:
+                    check.violation(rule, site_of(hp, t), '%s: the name an import binds is `asname` when given, else the first component of `name`; '
+                                    'found %s' % (hp.name, txt[:80]), key=key, witness='for ...: inner(*args, **kwargs); import os as kwargs')
+                continue
+            check.holds(rule, site_of(hp, t), '%s hands out %s.%s' % (hp.name, cname, fn), key=key)
+        check.floor(rule, 'binding constructs required of %s' % hp.name, n, 8)
